@@ -89,7 +89,7 @@ def _run_isolated(mod, seed, tier, twice, timeout_s):
     return pickle.loads(data)
 
 
-def _iso_execute(mod, scn, timeout_s=180):
+def _iso_execute(mod, scn, timeout_s=420):
     """mod.execute(scn) in a forked child (same isolation as a batch run)."""
     import pickle
 
@@ -301,7 +301,7 @@ def main(argv=None):
     sys.stdout.flush()
 
     chunk = max(1, min(64, n_runs // (a.workers * 8) or 1))
-    per_run_timeout = getattr(mod, "RUN_TIMEOUT_S", 180)
+    per_run_timeout = getattr(mod, "RUN_TIMEOUT_S", 420)
     results = {}
     harness_errors = []
     skipped = 0
